@@ -61,6 +61,8 @@ class Tamper(Job):
         stored = sim.mailbox_msgs(c) if c.conn is not None else []
         # own / peer / third side, and look-alikes that differ from a real side only by non-ASCII characters
         sides = [c.side, peer.side, THIRD, c.side + "\u200b", "\u00e9" + c.side, peer.side + "\u200b"]
+        if self.ninj > 1:
+            sides = sides[:3] if j == 0 else [peer.side]
         symbolic = script is None
         if symbolic:
             side = fresh_enum("inj%d_side" % j, sides)
@@ -106,8 +108,8 @@ class Tamper(Job):
             if symbolic:
                 bi = eng().choose(len(bodies), "inj%d_body" % j)
                 eng().inputs["inj%d_body" % j] = bi
-                # a second injection uses the labels that can pass for application traffic (keeps the product of case splits bounded)
-                phase = fresh_enum("inj%d_phase" % j, PHASES if j == 0 else ["version", "0", "1"])
+                # double injections use the labels that can pass for protocol traffic (keeps the product of case splits bounded)
+                phase = fresh_enum("inj%d_phase" % j, PHASES if self.ninj == 1 else (["pake", "version", "0", "1"] if j == 0 else ["version", "0", "1"]))
                 eng().inputs["inj%d_phase" % j] = phase
             else:
                 bi = script["inj%d_body" % j]
@@ -255,8 +257,8 @@ def jobs(tier):
             J.append(Tamper(cfg, lo, min(lo + step, n + 1), 1, "relabel"))
             J.append(Tamper(cfg, lo, min(lo + step, n + 1), 1, "flip"))
         if thorough:
-            for lo in range(0, n + 1, 2):
-                J.append(Tamper(cfg, lo, min(lo + 2, n + 1), 2, "relabel"))
+            for lo in range(0, n + 1, 3):
+                J.append(Tamper(cfg, lo, lo + 1, 2, "relabel"))
     return J
 
 
